@@ -221,3 +221,39 @@ class ISR:
         """series of <I| O |Psi0>"""
         ket = [opfun(v) if v else Vec() for v in self.gs]
         return sv_dot(self.classes[cls][I], ket, self.order)
+
+
+def ortho_cert_term(X, order):
+    """Coq term `ortho_ok P N states` (ADC.Models.RSPTCheck) for all states
+    of all classes of the explicit construction X"""
+    states = [st for nm in X.classes for st in X.classes[nm]]
+    alld = sorted({d for st in states for v in st for d in v})
+    txt = "[" + "; ".join(
+        "[" + "; ".join(
+            "[" + "; ".join(str(st[n].get(d, 0) % P)
+                            for n in range(order + 1)) + "]"
+            for d in alld) + "]" for st in states) + "]"
+    return f"ortho_ok {P} {order} {txt}", len(states)
+
+
+def certify_ortho(ctx, prop, space, psi, E, variants, order):
+    import detspace
+    cases, meta = [], []
+    for variant in variants:
+        X = ISR(space, psi, E, variant, order, n_classes=2)
+        term, n = ortho_cert_term(X, order)
+        cases.append(term)
+        meta.append((variant, n))
+    vals, errs = ctx.coq_eval("ortho", cases, header=detspace.RSPT_HEADER,
+                              shard=1)
+    for (variant, nst), v in zip(meta, vals):
+        ctx.case(key=("ortho-certificate", variant, space.seed),
+                 nontrivial=True, kind="ortho-certificate")
+        if not ctx.obligation(f"explicit {variant} intermediate states "
+                              f"({nst} states, model {space.seed}) accepted "
+                              f"by ortho_ok through order {order}",
+                              v == "true", str(v)):
+            ctx.violation(f"{prop}:explicit-engine-coq:{variant}",
+                          "the explicit intermediate states are rejected by "
+                          "the verified orthonormality checker",
+                          {"variant": variant, "seed": space.seed}, False)
